@@ -683,6 +683,17 @@ pub fn run(ctx: &Ctx, c06: bool) -> i32 {
     part
   });
   let mut extra = Map::new();
+  // the recorded witness of KF-1 is re-executed on every run (information only)
+  if !c06 {
+    if let Some(w) = ctx.findings.witness(KF1) {
+      let q = ConeQ { variant: 0, depth: w["depth"].as_u64().unwrap_or(3) as u8, delta: 0, lon: w["lon"].as_f64().unwrap_or(0.0), lat: w["lat"].as_f64().unwrap_or(0.0), r: w["radius"].as_f64().unwrap_or(0.1) };
+      let still = !matches!(check_c05(&q, false, &mut Part::new()), Verdict::Ok);
+      if !still {
+        eprintln!("[hpxmc] NOTE: the recorded witness of known finding KF-1 no longer fails on this tree");
+      }
+      extra.insert("kf1_witness_still_fails".into(), json!(still));
+    }
+  }
   extra.insert("start_depth_thresholds_recovered".into(), json!(thresholds().to_vec()));
   finish(
     ctx,
